@@ -7,7 +7,8 @@ def build(t, cls=AnyNode, parent=None, nodes=None, **kw):
     """(label, [children]) -> real tree of cls instances; attribute lbl = label;
     nodes: dict label -> node (filled)"""
     lbl, cs = t
-    n = cls(parent=parent, lbl=lbl, **kw) if cls is not anytree.Node else cls("n%d" % lbl, parent=parent, lbl=lbl, **kw)
+    real = adv(cls)
+    n = real(parent=parent, lbl=lbl, **kw) if cls is not anytree.Node else real("n%d" % lbl, parent=parent, lbl=lbl, **kw)
     if nodes is not None:
         nodes[lbl] = n
     for c in cs:
@@ -22,3 +23,67 @@ def snapshot(root):
 
 def lbls(nodes):
     return [n.lbl for n in nodes]
+
+
+# ---------------------------------------------------------------- adversarial node classes (C17)
+ADV = None          # kind of adversarial special methods mixed into every node class, or None
+SPECLOG = []        # every invocation of a user special method on a node
+
+
+def _log(name):
+    SPECLOG.append(name)
+
+
+def _mk_adv(kind):
+    raising = kind == "raising"
+
+    def method(name, result):
+        def m(self, *a):
+            _log(name)
+            if raising:
+                raise RuntimeError("special method %s must not be called" % name)
+            return result(self, *a) if callable(result) else result
+        m.__name__ = name
+        return m
+
+    ns = {"__slots__": ()}
+    if kind in ("always_equal", "raising"):
+        ns["__eq__"] = method("__eq__", True)
+        ns["__ne__"] = method("__ne__", False)
+        ns["__hash__"] = method("__hash__", 7)
+    if kind == "never_equal":
+        ns["__eq__"] = method("__eq__", False)
+        ns["__ne__"] = method("__ne__", True)
+        ns["__hash__"] = method("__hash__", lambda self: id(self) >> 4)
+    if kind == "unhashable":
+        ns["__eq__"] = method("__eq__", lambda self, o: self is o)
+        ns["__hash__"] = None
+    if kind in ("falsy", "raising"):
+        ns["__bool__"] = method("__bool__", False)
+    if kind in ("zero_len", "raising"):
+        ns["__len__"] = method("__len__", 0)
+    if kind in ("container", "raising"):
+        ns["__iter__"] = method("__iter__", lambda self: iter(()))
+        ns["__contains__"] = method("__contains__", True)
+        ns["__getitem__"] = method("__getitem__", None)
+    if kind in ("ordering", "raising"):
+        for nm in ("__lt__", "__le__", "__gt__", "__ge__"):
+            ns[nm] = method(nm, True)
+    return type("Adv_" + kind, (object,), ns)
+
+
+_ADV_CACHE = {}
+
+
+def adv(cls):
+    """the node class actually used: cls itself, or cls with the adversarial
+    special methods of the current kind in front of it in the MRO"""
+    if ADV is None:
+        return cls
+    key = (ADV, cls)
+    if key not in _ADV_CACHE:
+        ns = {}
+        if "__slots__" in cls.__dict__ or any("__slots__" in b.__dict__ for b in cls.__mro__[:-1] if b is not object):
+            ns["__slots__"] = ()
+        _ADV_CACHE[key] = type(cls.__name__ + "_" + ADV, (_mk_adv(ADV), cls), ns)
+    return _ADV_CACHE[key]
